@@ -26,6 +26,7 @@ RULE = (
     'Distinct = distinct SHA-1 of the recipe JSON.'
 )
 RULE += (' ' + 'Rounds 3-5: **kwargs callables with a rejected update_callable in their history; constant tuples referenced twice (same tuple object => same built object); a node type registered after a build already saw it unregistered.')
+RULE += (' ' + 'Round 6: chains of 60-420 levels (around and beyond the recursion budget) placed after other nodes: whether fdl.build returns or raises RecursionError, no instance is invoked twice in that one call.')
 ASSUMPTIONS = [
     'reference evaluator refmodel.ref_build (identity memo, pins keys)',
     'id reuse by the allocator is made likely by Box temporaries, not certain',
@@ -39,6 +40,10 @@ FLOORS = {'alias': 0.3, 'copyof': 0.15, 'box': 0.15}
 def strategy_(draw, tier):
   if draw(st.sampled_from(range(25))) == 0:
     return {'late_registration': True, 'probe_first': draw(st.booleans()), 'n_items': draw(st.integers(1, 3))}
+  if draw(st.sampled_from(range(25))) == 1:
+    # a chain deeper than the interpreter's recursion budget, visited after some other nodes
+    return {'over_budget': True, 'depth': draw(st.integers(60, 420)), 'early': draw(st.integers(1, 3)),
+            'deep_slot': draw(st.sampled_from(['c', 'e'])), 'share_early': draw(st.booleans())}
   mode = draw(st.sampled_from(['dag', 'dag', 'dag', 'boxes', 'chain'] if tier == 'thorough'
                                else ['dag', 'dag', 'dag', 'boxes', 'boxes', 'chain']))
   if mode == 'dag':
@@ -177,10 +182,63 @@ def check_late_registration(case, out):
   return out
 
 
+def check_over_budget(case, out):
+  """Depth around / beyond the recursion budget: fdl.build either returns or raises
+  RecursionError; either way no Buildable instance is invoked more than once during that one
+  call, and if it returns every instance was invoked exactly once."""
+  out.cls('over_budget')
+  out.nontrivial = True
+  early = [fdl.Config(things.f2, x=f'early{i}') for i in range(case['early'])]
+  chain = fdl.Config(things.f2, x='uid0')
+  if case['share_early']:
+    chain.y = early[0]
+  for i in range(1, case['depth']):
+    chain = fdl.Config(things.f2, x=f'uid{i}', child=chain)
+  root = fdl.Config(things.h1, a=early[0], b=early[1:], **{case['deep_slot']: chain})
+  n_instances = case['early'] + case['depth'] + 1
+  vuni.reset_log()
+  # the budget of a fresh interpreter (1000 frames), whatever the caller's stack depth and whatever
+  # limit the test engine installed
+  import sys
+  here, f = 0, sys._getframe()  # pylint: disable=protected-access
+  while f is not None:
+    here, f = here + 1, f.f_back
+  saved_limit = sys.getrecursionlimit()
+  sys.setrecursionlimit(here + 1000)
+  try:
+    fdl.build(root)
+    returned = True
+  except RecursionError:
+    returned = False
+  except Exception as e:  # pylint: disable=broad-except
+    out.add('build-raises', exc_kind(e), fiddle_frame(e), 'over-budget', repr(e)[:300])
+    return out
+  finally:
+    sys.setrecursionlimit(saved_limit)
+  out.cls('over_budget_returned' if returned else 'over_budget_recursion_error')
+  counts = collections.Counter((r.fn, r.bound.get('x') if r.fn == 'f2' else None) for r in vuni.LOG)
+  twice = sorted(str(k) for k, n in counts.items() if n > 1)
+  if twice:
+    out.add('invocation-count', 'mismatch', '', 'over-budget',
+            f'invoked more than once in one fdl.build (returned={returned}): {twice[:6]}')
+    return out
+  if returned and len(vuni.LOG) != n_instances:
+    out.add('invocation-count', 'mismatch', '', 'over-budget',
+            f'{len(vuni.LOG)} invocations for {n_instances} distinct Config instances')
+  # the next build works normally
+  try:
+    fdl.build(fdl.Config(things.ident, x=1))
+  except Exception as e:  # pylint: disable=broad-except
+    out.add('build-raises', exc_kind(e), fiddle_frame(e), 'after-over-budget', repr(e)[:300])
+  return out
+
+
 def check(case):
   out = Outcome()
   if case.get('late_registration'):
     return check_late_registration(case, out)
+  if case.get('over_budget'):
+    return check_over_budget(case, out)
   root, objs = dags.build(case)
   stats = dags.recipe_stats(case)
   if stats['aliases']:
